@@ -34,6 +34,8 @@ BASE_TRUSTED = [
     "Python semantics of the modelled subset, in particular: (P >> K) & (2^A - 1) on the payload integer reads A bits at bit offset "
     "len - K - A and raises ValueError for K < 0; unbounded ints; dict insertion order",
     "modular reasoning: a caller is checked against the callee's contract; sequence / loop induction as meta-rules",
+    "extraction: docstrings, comments and annotations dropped; locals renamed back to the pinned names only when the function has "
+    "exactly the pinned shape apart from those names (alpha-conversion, listed per function)",
 ]
 
 
@@ -319,6 +321,8 @@ def write_evidence(pid, tier, seed, mod, units, results, obs, proved, refuted, u
             fi = extract.func(r["qualname"])
             d = funcs.setdefault(r["qualname"], {"file": os.path.relpath(fi.file, extract.REPO), "line": fi.lineno,
                                                  "sha256": fi.sha, "units": 0, "obligations": 0, "paths": 0})
+            if getattr(fi, "alpha", None):
+                d["locals_renamed_back_before_execution"] = fi.alpha  # same shape as pinned, names differ (extract.py)
             d["units"] += 1
             d["obligations"] += len(r["obligations"])
             d["paths"] += r.get("stats", {}).get("paths", 0)
